@@ -85,7 +85,8 @@ Proof.
   - cbn [snd app jsteps]. rewrite HR. reflexivity.
   - destruct (jstep_accepts s iss o t (snd (steps (fst (step s o)) t) ++ R) H) as (iss' & H' & E).
     destruct (step s o) as [s' out] eqn:Es. destruct (steps s' t) as [s'' out'] eqn:Et. cbn [fst snd] in *.
-    rewrite <- app_assoc. rewrite E. rewrite <- Et. cbn [snd]. pose proof (IH s' iss' R H' HR) as IH'. rewrite Et in IH'. exact IH'.
+    rewrite Et in E. cbn [snd] in E. rewrite <- app_assoc, E.
+    pose proof (IH s' iss' R H' HR) as IH'. rewrite Et in IH'. exact IH'.
 Qed.
 
 Theorem judge_run : forall case, judge case (run case) = true.
